@@ -490,6 +490,14 @@ def _st_shapes(tier):
                     for icv in (0, 7, (1 << 32) - (n + 63) // 64):
                         q.append(dict(alg=alg, form=f, len=n, ic=icv))
                     continue
+                if alg in ("salsa20", "xsalsa20") and f == "xor_ic" and n > 130:
+                    # the Salsa20 reference unit increments its counter byte by byte; with a symbolic 64-bit counter each
+                    # further block costs the sweeping another 64-bit carry-chain equality, and from four blocks on these
+                    # shapes ended near or beyond the budget on a loaded machine.  Up to 130 bytes the counter stays
+                    # symbolic; the longer shapes take it around the 2^32 and 2^64 carries concretely
+                    for icv in (7, (1 << 32) - 2, (1 << 64) - 2):
+                        q.append(dict(alg=alg, form=f, len=n, ic=icv))
+                    continue
                 q.append(dict(alg=alg, form=f, len=n))
         for n in ((65,) if tier == "quick" else (1, 64, 65, 130)):
             q.append(dict(alg=alg, form="xor", len=n, inplace=1))
